@@ -164,8 +164,8 @@ def contents_predicates(ctx, rule):
     g = ctx.body(B + "get_source_contents")
     calls = [q.shape(g.expr_of_call(t)) for bi, t in g.calls()]
     rets = [sh for sh, _, _ in q.def_shapes(g, 0, {})]
-    want = ["Option::and_then(slice::get(arg1.source_contents,cast<usize>(arg2)),%s(Option::as_ref(p1)))" % LAM,
-            "Option::and_then(slice::get(arg1.source_contents,cast<usize>(arg2)),%s(Option::as_ref(p1)))" % LAM]
+    want = ["Option::and_then(slice::get(arg1.source_contents,cast<usize>(arg2)),fn:Option::as_ref)",
+            "Option::and_then(slice::get(arg1.source_contents,cast<usize>(arg2)),fn:Option::as_ref)"]
     ctx.check(len(rets) == 1 and rets[0] in want, rule, g.path, "get:flatten-option",
               "get_source_contents(id) is Some only when the slot exists *and* holds contents (Option<Option<_>> flattened with and_then; an empty slot reads as no contents)", detail=str(rets))
     sg = ctx.body("types::SourceMap::get_source_contents")
